@@ -82,7 +82,9 @@ def _case(draw, big=False):
         "unwrapped": bool(rng.integers(0, 3) == 0),
         # ... and of those, some carry a user forward hook that rewrites the output, or are an instance of a user
         # subclass overriding forward(): `aggregator(J)` - the nn.Module call - is what the property names
-        "custom": ["plain", "plain", "hook", "subclass"][int(rng.integers(0, 4))],
+        # "learnable": the configured weight / preference vector requires grad (learnt task weights), so the aggregated vector
+        # carries a grad_fn - its VALUE must still be added to an existing .grad
+        "custom": ["plain", "plain", "hook", "subclass", "learnable"][int(rng.integers(0, 5))],
         "containers": [["list", "tuple", "tensor"][int(rng.integers(0, 3))], ["list", "tuple", "generator", "set", "dict-keys"][int(rng.integers(0, 5))]],
     }
 
@@ -120,7 +122,16 @@ def _features(prog, inputs, shapes, dual):
     return f
 
 
-def _customise(agg, custom):
+def _customise(agg, custom, spec=None, dtype=None):
+    if custom == "learnable" and spec is not None:
+        from torchjd import aggregation as A
+
+        tdt = getattr(torch, dtype)
+        if spec["name"] == "Constant":
+            return A.Constant(torch.tensor(spec["weights"], dtype=tdt, requires_grad=True))
+        if spec["name"] in ("UPGrad", "DualProj") and spec.get("pref") is not None:
+            return getattr(A, spec["name"])(pref_vector=torch.tensor(spec["pref"], dtype=tdt, requires_grad=True))
+        return agg
     if custom == "hook":
         agg.register_forward_hook(lambda _mod, _args, o: o * 2.0)
     elif custom == "subclass":
@@ -134,7 +145,7 @@ def _call(prog, inputs, spec, chunk, pre, containers=("list", "list"), unwrapped
     before = jdcheck.set_pre_grads(g.leaves, pre)
     rec = jdcheck.make_recording(spec, prog["dtype"])
     if unwrapped:
-        rec = _customise(rec.inner, custom)
+        rec = _customise(rec.inner, custom, spec, prog["dtype"])
     tensors = [g.get(r) for r in prog["outputs"]]
     if containers[0] == "tuple":
         tensors = tuple(tensors)
@@ -162,8 +173,9 @@ def _check_unwrapped(out, case, prog, spec, dtype, dual, g, before, agg, expecte
     if rel.domain_exclusion(spec, dtype, Jfull) is not None:
         out.excluded = "aggregator-domain"
         return out
-    x = agg(Jt).double().numpy()
-    wn = rel.weights_norm(agg, Jt) if spec["name"] != "TrimmedMean" else 1.0
+    x = agg(Jt).detach().double().numpy()
+    with torch.no_grad():
+        wn = rel.weights_norm(agg, Jt) if spec["name"] != "TrimmedMean" else 1.0
     tol = rel.base_tolerance(spec, dtype, Jfull, wn, float(np.linalg.norm(x))) * 4 + jdcheck.deriv_tol(dtype, dual.max_abs) * max(1.0, wn) * m
     tol *= 2.0 if case.get("custom", "plain") == "hook" else 1.0  # the hook doubles the output (tanh is 1-Lipschitz)
     off = 0
@@ -171,14 +183,14 @@ def _check_unwrapped(out, case, prog, spec, dtype, dual, g, before, agg, expecte
         k = blocks[i].shape[1]
         leaf = g.leaves[i]
         if out.check(leaf.grad is not None, "grad-missing", f"input {i}"):
-            got = (leaf.grad - (before[i] if before[i] is not None else 0)).double().numpy().reshape(-1)
+            got = (leaf.grad.detach() - (before[i] if before[i] is not None else 0)).double().numpy().reshape(-1)
             out.within(float(np.abs(got - x[off : off + k]).max(initial=0.0)), tol, "backward:differs-from-aggregated-oracle-jacobian",
                        f"input {i}: increment {got.tolist()} vs A(J)[{off}:{off + k}] = {x[off:off + k].tolist()} ({spec})")
         off += k
     for i, leaf in enumerate(g.leaves):
         if i not in expected_inputs:
             old = before[i]
-            same = (leaf.grad is None and old is None) or (leaf.grad is not None and old is not None and torch.equal(leaf.grad, old))
+            same = (leaf.grad is None and old is None) or (leaf.grad is not None and old is not None and torch.equal(leaf.grad.detach(), old))
             out.check(same, "non-input-grad-touched", f"leaf {i}")
     out.nontrivial = m >= 2 and len(expected_inputs) >= 2 and bool(feats)
     return out
